@@ -644,18 +644,21 @@ pub fn run(ctx: &Ctx) -> i32 {
             // (a) the families under a renamed dependency
             let quick = ctx.quick();
             let (nm, nr, cases) = if quick { (16usize, 16usize, 32u32) } else { (96, 96, 128) };
-            let rule_a = "(a) fam_msg and fam_reply programs (every code-generation branch: all kinds, replies with partial coverage, interfaces with custom flags, generics, mt helpers, entry points) compiled in a crate whose only path to the framework is `svx = { package = \"sylvia\" }`; they must compile and pass the C01, C02 and C07 oracles.";
+            let rule_a = "(a) fam_msg and fam_reply programs (every code-generation branch: all kinds, replies with partial coverage, interfaces with custom flags, generics, mt helpers, entry points) compiled in crates whose only path to the framework is `<alias> = { package = \"sylvia\" }`, the alias drawn from the seed (message corpus: one of sv2, sylvia_v1, fw3a -- letter/digit boundaries; reply corpus: one of svx, sv_fw, svX); they must compile and pass the C01, C02 and C07 oracles.";
+            // aliases are legal dependency keys that are also identifiers as written
+            let alias_m = ["sv2", "sylvia_v1", "fw3a"][(ctx.seed % 3) as usize];
+            let alias_r = ["svx", "sv_fw", "svX"][((ctx.seed / 3) % 3) as usize];
             let msg_programs = replay_programs(ctx).unwrap_or_else(|| crate::fam_msg(ctx.seed ^ 0x19, nm, &msg_opts_s1()));
             let mut out = Outcome { rule: rule_a.to_string(), ..Default::default() };
             for prop in ["C01", "C02"] {
-                let o = e2_run(ctx, E2Spec { exe_prop: Some(prop), family: "alias_msg", programs: msg_programs.clone(), cases, rule: "", assumptions: vec![A_NATIVE.into(), A_DOMAIN.into()], alias: Some("svx") });
+                let o = e2_run(ctx, E2Spec { exe_prop: Some(prop), family: "alias_msg", programs: msg_programs.clone(), cases, rule: "", assumptions: vec![A_NATIVE.into(), A_DOMAIN.into()], alias: Some(alias_m) });
                 let r = out.rule.clone();
                 out = merge_outcomes(out, o);
                 out.rule = r;
             }
             if ctx.replay.is_none() {
                 let reply_programs = crate::fam_reply(ctx.seed ^ 0x19, nr, &GenOpts::default(), true);
-                let o = e2_run(ctx, E2Spec { exe_prop: Some("C07"), family: "alias_reply", programs: reply_programs, cases: cases * 3, rule: "", assumptions: vec![A_REPLY.into()], alias: Some("svx") });
+                let o = e2_run(ctx, E2Spec { exe_prop: Some("C07"), family: "alias_reply", programs: reply_programs, cases: cases * 3, rule: "", assumptions: vec![A_REPLY.into()], alias: Some(alias_r) });
                 let r = out.rule.clone();
                 out = merge_outcomes(out, o);
                 out.rule = r;
